@@ -133,6 +133,8 @@ POLICIES = {
     "zero": (1, 0.0), "neg": (2, -5.0),
     # a patient application: an hour
     "hour": (2, 3600.0),
+    # ... or one that never gives up
+    "forever": (2, float("inf")),
 }
 
 
